@@ -325,6 +325,9 @@ class Parser:
         )
         if condition:
             self.__curcommand.reassign_arguments()
+            if not self.__curcommand.iscomplete():
+                # nothing could be reassigned: the command is really incomplete
+                return False
             # rewind lexer
             self.lexer.pos -= 1
             return True
